@@ -251,8 +251,8 @@ func keySpecs(r *rand.Rand, nrandom int) []keySpec {
 	add("uint16", "uint16", "", intPool("uint16", "0", "65535", "1", "256", "32768"))
 	add("int32", "int32", "", intPool("int32", "0", "-1", "2147483647", "-2147483648", "1", "65536", "-65536", "1"))
 	add("uint32", "uint32", "", intPool("uint32", "0", "4294967295", "1", "2147483648", "65536"))
-	add("int64", "int64", "", intPool("int64", "0", "-1", "1", "4294967296", "-4294967296", "4294967295", "9223372036854775807", "-9223372036854775808", "1<<32+1", "1", "-4294967295", "8589934592"))
-	add("uint64", "uint64", "", intPool("uint64", "0", "1", "4294967296", "4294967295", "18446744073709551615", "9223372036854775808", "1<<32+1", "1", "8589934592"))
+	add("int64", "int64", "", intPool("int64", "0", "-1", "1", "4294967296", "-4294967296", "4294967295", "9223372036854775807", "-9223372036854775808", "1<<32+1", "1", "-4294967295", "8589934592", "9223372036854775806", "-9223372036854775807", "1<<53", "1<<53+1", "-(1<<53)", "-(1<<53)-1", "1<<62", "1<<62+1", "1<<53-1"))
+	add("uint64", "uint64", "", intPool("uint64", "0", "1", "4294967296", "4294967295", "18446744073709551615", "9223372036854775808", "1<<32+1", "1", "8589934592", "18446744073709551614", "1<<53", "1<<53+1", "9223372036854775809", "1<<53+2"))
 	add("I", "I", "", intPool("I", "0", "-1", "2147483647", "-2147483648", "1", "1"))
 	add("U", "U", "", intPool("U", "0", "4294967295", "1", "2147483648"))
 	add("P", "P", "", intPool("P", "0", "4294967295", "1", "4096"))
@@ -282,6 +282,29 @@ func keySpecs(r *rand.Rand, nrandom int) []keySpec {
 	add("stempty", "struct{}", "", lines("struct{}{}", "struct{}{}"))
 	add("stblank", "SBl", "type SBl struct {\n\ta int\n\t_ int\n\tb string\n}\n", lines(`SBl{a: 1, b: "x"}`, `SBl{a: 1, b: "x"}`, `SBl{a: 2, b: "x"}`))
 	add("stembed", "SE", "type SEB struct{ k int16 }\ntype SE struct {\n\tSEB\n\tn string\n}\n", lines(`SE{SEB{1}, "a"}`, `SE{SEB{1}, "a"}`, `SE{SEB{2}, "a"}`, `SE{}`))
+	{
+		// every pair of strings over the characters the runtime uses to join and escape the
+		// parts of a composite key
+		var esc []string
+		for _, a := range []string{"", "\\", "$", "a"} {
+			for _, b := range []string{"", "\\", "$", "$$", "\\$", "$\\"} {
+				esc = append(esc, a+b)
+			}
+		}
+		var av, sv, iv []string
+		for _, x := range esc {
+			for _, y := range esc {
+				if (len(x)+len(y))%3 == 0 || x == "" || y == "" {
+					av = append(av, fmt.Sprintf("[2]string{%q, %q}", x, y))
+					sv = append(sv, fmt.Sprintf("S2E{%q, %q}", x, y))
+					iv = append(iv, fmt.Sprintf("[2]interface{}{%q, %q}", x, y))
+				}
+			}
+		}
+		add("arr2esc", "[2]string", "", lines(av...))
+		add("st2esc", "S2E", "type S2E struct{ a, b string }\n", lines(sv...))
+		add("arrany2esc", "[2]interface{}", "", lines(iv...))
+	}
 	add("namedarr", "NA", "type NAE string\ntype NA [2]NAE\n", lines(`NA{"a", "b"}`, `NA{"a$b", ""}`, `NA{"a", "b"}`))
 	// random composite key types
 	for i := 0; i < nrandom; i++ {
@@ -297,9 +320,9 @@ var leafTypes = []struct {
 	{"int8", []string{"0", "1", "-1", "127"}},
 	{"uint16", []string{"0", "1", "65535"}},
 	{"int32", []string{"0", "-1", "65536"}},
-	{"int64", []string{"0", "1", "4294967296", "-1"}},
-	{"uint64", []string{"0", "4294967296", "18446744073709551615"}},
-	{"string", []string{`""`, `"a"`, `"$"`, `"a$b"`, `"\\"`, `"b"`}},
+	{"int64", []string{"0", "1", "4294967296", "-1", "1<<53", "1<<53+1", "-9223372036854775808", "-9223372036854775807"}},
+	{"uint64", []string{"0", "4294967296", "18446744073709551615", "18446744073709551614", "1<<53+1", "1<<53"}},
+	{"string", []string{`""`, `"a"`, `"$"`, `"a$b"`, `"\\"`, `"b"`, `"$$"`, `"a\\"`, `"a$$\\"`, `"\\$"`}},
 	{"bool", []string{"true", "false"}},
 	{"float64", []string{"0", "negzero()", "1.5", "nan()"}},
 	{"interface{}", []string{"nil", "1", "int8(1)", `"1"`, "true"}},
